@@ -95,6 +95,9 @@ func c19(c *core.Check) {
 
 	r1 := c.Rule("R1", "every integer / and % of css/counters has a divisor proven non-zero, and every % whose result indexes a list has a dividend proven non-negative (Go's % keeps the sign of the dividend)", 12)
 	divisionRule(c, r1, inPkgs("css/counters"))
+	if n := divLoopRule(c, r1, inPkgs("css/counters")); n < 2 {
+		r1.Unknown("division-progress loops", "-", fmt.Sprintf("%d digit-extraction loops found in css/counters, 2 expected (alphabetic, numeric)", n))
+	}
 
 	// ---- R2 vocabulary
 	r2 := c.Rule("R2", "the system names accepted by the `system` descriptor validator and by symbols() are all cases of counters.renderValue's dispatch and of CounterStyleDescriptors.Validate; the six systems of Counter Styles 3 are all present", 12)
@@ -350,6 +353,8 @@ func c19(c *core.Check) {
 				}
 			}
 		}
+		okG, whyG := core.LoopVisitedGuard(p, fn, func(l *ssa.Lookup) bool { return l.X == fn.Params[0] })
+		r3.Cond(okG, core.FuncName(fn)+" extends loop records a new name on every iteration", p.Pos(fn.Pos()), whyG, whyG+": an `extends` cycle would not terminate")
 		r3.Cond(loopLookup && loopHas && loopAdd, core.FuncName(fn)+" extends loop consults and extends the visited set", p.Pos(fn.Pos()),
 			"the loop that follows `extends` looks the style up, tests previousTypes.Has and calls previousTypes.Add", fmt.Sprintf("lookup=%v Has=%v Add=%v inside the loop: an `extends` cycle would not terminate", loopLookup, loopHas, loopAdd))
 	}
